@@ -30,7 +30,7 @@ Definition force_ends (l : list bool) : list bool :=
 Definition labels_cycles (t : thr4) (n : Z) (rows : list feat4) : result (list bool) :=
   if negb (thr_valid t) then Err EValue
   else match rows with
-       | [] => Err EIndex
+       | [] => Ok []        (* empty table: empty label column (the run filter returns early) *)
        | _ => if (n <? 0)%Z then Err EValue
               else Ok (minrun (Z.to_nat n) (force_ends (map (qualifies t) rows)))
        end.
